@@ -154,7 +154,7 @@ def rand_elem(rng, d2_pattern=None):
     for _ in range(rng.randint(0, 2)):
         k = rng.random()
         if k < 0.3:
-            s += '.' + rng.choice(['c', 'c-d', 'c_e', 'c$', 'c$$@-3'])
+            s += '.' + rng.choice(['c', 'c-d', 'c_e', 'c$', 'c$$@-3', 'c\u0663', 'c$@\uff13', 'C9'])
         elif k < 0.4:
             s += '#i' + rng.choice(['', '1', '$'])
         elif k < 0.6:
@@ -174,7 +174,7 @@ def rand_elem(rng, d2_pattern=None):
         s += '{%s}' % rng.choice(['text', 'a b', 'x>y', 'a]b', '(x', '$#', 'q=r', "it's", '[1]', 'a<b', 'Hello ${1}', 'a {b} c', 'item ${1:name} x',
                                   '{x}', 'x {y {z}} w', 'f, ${2:g}, h', '${0}'])
     if rng.random() < 0.2:
-        s += '*%s' % rng.choice(['2', '3', '10', ''])
+        s += '*%s' % rng.choice(['2', '3', '10', '', '\u0663', '\uff11\uff12', '\u0967'])      # any decimal digit counts as a number (str.isdecimal)
     return s
 
 
@@ -225,7 +225,7 @@ LEFTS_D2 = ['<a href=x>', '<div class=y id=z>', '<img src=a.png alt=b>']
 RIGHTS = ['', ' foo', '</div>', '\n']
 RIGHTS_NOLOOK = [']', ')', '}', '"', "'", ')]']
 CSS_A = ['p10', 'm10-20', 'bd1-s#f.5', 'c#fc0', 'p10+m20!', 'fz1.5e', '@kf', 'trf:r', 'd:ib', '$var10', 'w100%', 'lh1.5', 'm-10--20', 'pos:a+t0+l0',
-         'bgc#f+c#0', 'ov:h!', 'fl:l', 'p10p20p', '(p10)', 'm(1)']
+         'bgc#f+c#0', 'ov:h!', 'fl:l', 'p10p20p', '(p10)', 'm(1)', 'm\uff11\uff10', 'p\u0663-\u0664', 'w\u0967e', 'P10', 'M-A']
 
 
 def run_shard(desc, ctx):
